@@ -331,3 +331,83 @@ Proof.
       destruct (HS i sg lp n rho F (OExc ci pi) tr di ei n1' HR Ei Gi) as (L1 & m1 & F1 & X1 & A1).
       exists m1, F1. split; [|exact A1]. apply xexec_stop; [discriminate|exact X1].
 Qed.
+
+(** one loop: every iteration of the source loop is one iteration of `while True`; the loop
+    is left by a value (break) or by an exception *)
+Lemma loop_sim fuel0 : (forall k, (k < fuel0)%nat -> xsim k) ->
+  forall k, (k <= fuel0)%nat ->
+  forall xs rho1 body o t sg1 names n1 F1 db eb n2 res,
+    xloop k xs rho1 body = Some (o, t) ->
+    R2 rho1 sg1 F1 n1 -> xgen sg1 names n1 body = (db, eb, n2, true) ->
+    Forall2 (fun x p => sg1 x = Some p /\ idx p < n1) xs names -> NoDup names ->
+    (forall y q, ~ In y xs -> sg1 y = Some q -> ~ In q names) ->
+    Forall (fun p => idx res < idx p) names -> idx res < n1 ->
+    match o with
+    | OVal v => exists m F2, xwhile m F1 (db ++ [XAssign res eb; XBreak]) = Some (Normal, F2, t) /\
+                             F2 res = Some v /\ agree_below (idx res) F1 F2
+    | OExc c p => exists m F2, xwhile m F1 (db ++ [XAssign res eb; XBreak]) = Some (Exc c p, F2, t) /\
+                               agree_below (idx res) F1 F2
+    | ORec _ => False
+    end.
+Proof.
+  intros HS. induction k as [|k IHk]; intros Hk xs rho1 body o t sg1 names n1 F1 db eb n2 res
+                                        Hl HR Hg HF ND Hout Hres Hres2; [discriminate|].
+  cbn [xloop] in Hl.
+  destruct (xeval k rho1 body) as [[[vb|vs|cb pb] t1]|] eqn:Eb; try discriminate.
+  - (* value: assign the result and break *)
+    inversion Hl; subst; clear Hl.
+    destruct (HS k ltac:(lia) body sg1 names n1 rho1 F1 (OVal vb) t db eb n2 HR Eb Hg)
+      as (L1 & m & F' & tb1 & tb2 & X & P & T & A & Nb).
+    exists (S (Nat.max m 1)), (set F' res vb).
+    split.
+    { cbn [xwhile].
+      assert (Xr : xexec 1 F' [XAssign res eb; XBreak] = Some (Brk, set F' res vb, tb2)).
+      { rewrite xexec_cons, (xexec1_S_assign 0 F' res eb vb tb2 P), xexec_cons. cbn [xexec1].
+        rewrite app_nil_r. reflexivity. }
+      pose proof (xexec_seq m 1 F1 db _ _ _ _ _ _ X Xr) as X2. unfold xexec in X2. rewrite X2, T. reflexivity. }
+    split; [apply set_same|].
+    apply (agree_trans (idx res) (idx res) F1 F' (set F' res vb)); [apply N.le_refl| |apply agree_set; apply N.le_refl].
+    apply (agree_weaken (idx res) n1); [lia|exact A].
+  - (* recur *)
+    destruct (rebind xs vs rho1) as [rho2|] eqn:Er; [|discriminate].
+    destruct (xloop k xs rho2 body) as [[o2 t2]|] eqn:El; [|discriminate].
+    inversion Hl; subst; clear Hl.
+    assert (Hlen : length vs = length names).
+    { rewrite <- (rebind_length _ _ _ _ Er). apply (Forall2_length _ _ _ HF). }
+    destruct (HS k ltac:(lia) body sg1 names n1 rho1 F1 (ORec vs) t1 db eb n2 HR Eb Hg) as (L1 & Hrec).
+    destruct (Hrec Hlen) as (m & F' & F'' & X & A & Sa).
+    assert (HR' : R2 rho1 sg1 F' n1) by (eapply R2_mono; [exact HR|apply N.le_refl|exact A]).
+    assert (HR2 : R2 rho2 sg1 F'' n1) by (eapply R2_rebind; eauto).
+    pose proof (IHk ltac:(lia) xs rho2 body o t2 sg1 names n1 F'' db eb n2 res El HR2 Hg HF ND Hout Hres Hres2) as Hnext.
+    assert (X' : forall m2, xexec (Nat.max m m2) F1 (db ++ [XAssign res eb; XBreak]) = Some (Cont, F'', t1)).
+    { intro m2. apply xexec_stop; [discriminate|]. eapply xexec_mono; [apply Nat.le_max_l|exact X]. }
+    assert (Ag : forall F2, agree_below (idx res) F'' F2 -> agree_below (idx res) F1 F2).
+    { intros F2 A2. apply (agree_trans (idx res) (idx res) F1 F'' F2); [apply N.le_refl| |exact A2].
+      intros q Hq. rewrite (set_all_other _ _ _ _ q Sa).
+      + apply A. lia.
+      + intro Hin. rewrite Forall_forall in Hres. specialize (Hres _ Hin). lia. }
+    destruct o as [v|?|c p].
+    + destruct Hnext as (m2 & F2 & W & Fr & A2).
+      exists (S (Nat.max m m2)), F2.
+      split.
+      { cbn [xwhile]. specialize (X' m2). unfold xexec in X'. rewrite X'.
+        rewrite (xwhile_mono m2 (Nat.max m m2) _ _ _ (Nat.le_max_r _ _) W). reflexivity. }
+      split; [exact Fr|apply Ag; exact A2].
+    + exact Hnext.
+    + destruct Hnext as (m2 & F2 & W & A2).
+      exists (S (Nat.max m m2)), F2.
+      split.
+      { cbn [xwhile]. specialize (X' m2). unfold xexec in X'. rewrite X'.
+        rewrite (xwhile_mono m2 (Nat.max m m2) _ _ _ (Nat.le_max_r _ _) W). reflexivity. }
+      apply Ag; exact A2.
+  - (* the body raises: the exception leaves the loop *)
+    inversion Hl; subst; clear Hl.
+    destruct (HS k ltac:(lia) body sg1 names n1 rho1 F1 (OExc cb pb) t db eb n2 HR Eb Hg) as (L1 & m & F' & X & A).
+    exists (S m), F'.
+    split.
+    { cbn [xwhile].
+      assert (X2 : xexec m F1 (db ++ [XAssign res eb; XBreak]) = Some (Exc cb pb, F', t))
+        by (apply xexec_stop; [discriminate|exact X]).
+      unfold xexec in X2. rewrite X2. reflexivity. }
+    apply (agree_weaken (idx res) n1); [lia|exact A].
+Qed.
